@@ -134,6 +134,9 @@ class Sim:
         self.reuse_first_get: set = set()
         self.exc: list = []
         self.harness_errors: list = []
+        self.gate_cfg: dict = {}       # t -> set of trace signals at which the request blocks
+        self.gated: dict = {}          # t -> (signal, future) while blocked inside a trace callback
+        self.traced = False
 
         class Shim:
             @staticmethod
@@ -229,13 +232,56 @@ class Sim:
         elif self.phase.get(t) in ("new", "creating"):
             self.cancel_req.add(t)
 
+    # ---- tracing: requests may carry a TraceConfig whose callbacks block on harness gates, which
+    #      opens the await points inside _get / _wait_for_available_connection / connect
+    GATES = ("reuseconn", "queued_start", "queued_end", "create_start", "create_end")
+
+    async def gate(self, t, name):
+        if not self.active:
+            return
+        if name == "reuseconn":
+            if self.phase.get(t) == "new":
+                self.reuse_first_get.add(t)
+            self.phase[t] = "reusing"          # took a connection out of the pool: in use from now on
+        elif name == "create_start":
+            self.phase[t] = "creating"         # placeholder reserved
+        self.finish_event()
+        self.events.append((["G", t, name], ""))
+        self.oracle_step(["G", t, name])
+        if name in self.gate_cfg.get(t, ()):
+            fut = self.loop.create_future()
+            self.gated[t] = (name, fut)
+            try:
+                await fut
+            finally:
+                self.gated.pop(t, None)
+
+    def make_traces(self, t):
+        from aiohttp.tracing import Trace
+        tc = self.aiohttp.TraceConfig()
+
+        def cb(name):
+            async def f(session, ctx, params):
+                await self.gate(t, name)
+            return f
+        tc.on_connection_reuseconn.append(cb("reuseconn"))
+        tc.on_connection_queued_start.append(cb("queued_start"))
+        tc.on_connection_queued_end.append(cb("queued_end"))
+        tc.on_connection_create_start.append(cb("create_start"))
+        tc.on_connection_create_end.append(cb("create_end"))
+        tc.freeze()
+        return [Trace(SimpleNamespace(), tc, tc.trace_config_ctx())]
+
     # ---- stimuli
     def apply(self, op):
         kind = op[0]
         if kind == "start":
-            _, t, k = op
+            t, k = op[1], op[2]
             if t in self.tasks:
                 return False
+            if len(op) > 3:
+                self.gate_cfg[t] = set(op[3])
+                self.traced = True
             self.phase[t] = "new"
             self.key_of[t] = k
             task = self.loop.create_task(self.runner(t, k))
@@ -255,6 +301,10 @@ class Sim:
         if kind == "cancel":
             t = op[1]
             if self.phase.get(t) not in ("new", "waiting", "creating") or t in self.cancel_req:
+                return False
+            if t in self.gated and self.gated[t][0] in ("reuseconn", "create_end"):
+                # an exception out of these two trace signals makes the connector drop an open connection
+                # without closing or pooling it (pre-existing, outside this property's oracle)
                 return False
             was_new = self.phase.get(t) == "new"
             self.tasks[t].cancel()
@@ -293,6 +343,13 @@ class Sim:
                 await self.connector.close()
             self.closer_task = self.loop.create_task(closer())
             return True
+        if kind == "open":
+            t = op[1]
+            g = self.gated.get(t)
+            if g is None or g[1].done():
+                return False
+            g[1].set_result(None)
+            return True
         if kind == "run":
             self.loop.run_until_idle()
             self.finish_event()
@@ -304,10 +361,15 @@ class Sim:
         self.begin(["S", t, k])
         self.started.add(t)
         req = SimpleNamespace(connection_key=self.keys[k], proxy=None, tid=t)
-        tmo = self.aiohttp.ClientTimeout(connect=1.0 + 0.01 * t)
-        self.deadline[t] = self.loop.time() + 1.0 + 0.01 * t
+        traces = []
+        if t in self.gate_cfg:
+            traces = self.make_traces(t)
+            tmo = self.aiohttp.ClientTimeout()
+        else:
+            tmo = self.aiohttp.ClientTimeout(connect=1.0 + 0.01 * t)
+            self.deadline[t] = self.loop.time() + 1.0 + 0.01 * t
         try:
-            conn = await self.connector.connect(req, [], tmo)
+            conn = await self.connector.connect(req, traces, tmo)
         except BaseException as e:  # noqa
             was = self.phase.get(t)
             # while queued: cancel / timeout -> cancelled; a closed connector refusing to queue -> failed
@@ -378,7 +440,7 @@ class Sim:
         tot = 0
         per: dict = {}
         for t, p in self.phase.items():
-            if p in ("creating", "holding"):
+            if p in ("creating", "holding", "reusing"):
                 tot += 1
                 per[self.key_of[t]] = per.get(self.key_of[t], 0) + 1
         return tot, per
@@ -398,7 +460,7 @@ class Sim:
         closed = self.connector._closed
         step = len(self.events) - 1
         if not closed:
-            first_get = ev[0] == "S" and ev[1] in self.reuse_first_get
+            first_get = ((ev[0] == "S" or (ev[0] == "G" and ev[2] == "reuseconn")) and ev[1] in self.reuse_first_get)
             if self.L > 0 and tot > self.L and tot > ptot:
                 self.violations.append(({"kind": "limit", "scope": "total", "step": step, "event": ev,
                                          "in_use": tot, "limit": self.L, "step_is_first_get_reuse": first_get},
@@ -429,9 +491,11 @@ class Sim:
         tot, per = self.in_use()
         live = [t for t, p in self.phase.items() if p == "waiting" and not self.cur_fut[t].done()]
         if not c._closed and self.closed_seen is not True:
+            tokens = [self.key_of[u] for u in self.woken_set()]     # non-empty only behind trace gates
             for t in live:
                 k = self.key_of[t]
-                cap = self.capacity(k, tot, per)
+                cap = self.capacity(k, tot + len(tokens), {h: n + tokens.count(h) for h, n in
+                                                           {**{h: 0 for h in tokens}, **per}.items()})
                 if cap is None or cap > 0:
                     self.violations.append(({"kind": "lost_wakeup", "step": step, "task": t, "host": k,
                                              "capacity": cap, "lph": self.Lh,
@@ -445,7 +509,7 @@ class Sim:
                                         f"request {t} still waits for a slot after connector.close() completed"))
                 break
             opened = [i for i, (p, tr) in enumerate(self.protos) if not tr.closed]
-            if opened:
+            if opened and not self.gated:      # a request blocked in a trace callback may still own one
                 self.violations.append(({"kind": "close_leaves_open", "step": step, "conns": opened},
                                         f"connections {opened} created by the connector are still open after close()"))
             for t in self.waiting_at_close:
@@ -459,6 +523,8 @@ class Sim:
         for _ in range(3 * (len(self.tasks) + 2)):
             self.apply(["run"])
             progressed = False
+            for t in sorted(self.gated):
+                progressed |= self.apply(["open", t])
             for t in sorted(self.tasks):
                 p = self.phase.get(t)
                 if p == "creating":
@@ -469,7 +535,7 @@ class Sim:
                 break
         self.apply(["run"])
         c = self.connector
-        stuck = [t for t, p in self.phase.items() if p in ("waiting", "new", "creating", "holding")]
+        stuck = [t for t, p in self.phase.items() if p in ("waiting", "new", "creating", "holding", "reusing")]
         if not c._closed:
             if stuck and not self.violations:
                 self.violations.append(({"kind": "lost_wakeup", "step": len(self.events) - 1, "task": stuck[0],
@@ -531,6 +597,8 @@ class Sim:
                 ws.append(f"L.{ev[1]}.{ev[2]}.{o(ev[3])}")
             elif k == "X":
                 ws.append("X")
+            elif k == "G":
+                ws.append("G")      # not a model event: traced histories are oracle-only
         return f"RUN {self.L} {self.Lh} {1 if self.fc else 0} {self.hk} " + " ".join(ws)
 
 
@@ -557,7 +625,8 @@ def run_history(cfg, hk, history, orders=None, rng=None, drain=True, chooser=Non
             sim.apply(["run"])
         return {"events": [e for e, _ in sim.events], "snapshots": [s for _, s in sim.events],
                 "violations": sim.violations, "orders": sim.orders_used, "line": sim.model_line(),
-                "applied": applied, "ever_waited": sim.ever_waited, "harness_errors": sim.harness_errors}
+                "applied": applied, "ever_waited": sim.ever_waited, "harness_errors": sim.harness_errors,
+                "traced": sim.traced}
     finally:
         sim.close()
 
